@@ -1560,7 +1560,7 @@ func (schema *Schema) visitJSONNumber(settings *schemaValidationSettings, value 
 	}
 
 	// "exclusiveMinimum"
-	if v := schema.ExclusiveMin; v && !(*schema.Min < value) {
+	if v := schema.ExclusiveMin; v && schema.Min != nil && !(*schema.Min < value) {
 		if settings.failfast {
 			return errSchema
 		}
@@ -1578,7 +1578,7 @@ func (schema *Schema) visitJSONNumber(settings *schemaValidationSettings, value 
 	}
 
 	// "exclusiveMaximum"
-	if v := schema.ExclusiveMax; v && !(*schema.Max > value) {
+	if v := schema.ExclusiveMax; v && schema.Max != nil && !(*schema.Max > value) {
 		if settings.failfast {
 			return errSchema
 		}
